@@ -539,15 +539,16 @@ inductive RecvOut
   | rspErr (e : RecvErr)          -- GetBlockChunksRsp{Err}
 deriving DecidableEq, Repr
 
-/-- The "add to got" loop of `handleInWaiting`; `big b` = `block.Size() > MaxBlockSize`. -/
-def recvAdd (want : List Nat) (big : Blk → Bool) : List Blk → List Blk → Except RecvErr (List Blk)
-  | got, [] => .ok got
+/-- The "add to got" loop of `handleInWaiting`; `big b` = `block.Size() > MaxBlockSize`.
+Blocks accepted before an offending one stay in `got`. -/
+def recvAdd (want : List Nat) (big : Blk → Bool) : List Blk → List Blk → List Blk × Option RecvErr
+  | got, [] => (got, none)
   | got, b :: r =>
     match want[got.length]? with
-    | none => .error .tooMany
+    | none => (got, some .tooMany)
     | some h =>
-      if h ≠ b.hash then .error .unexpected
-      else if big b then .error .tooBig
+      if h ≠ b.hash then (got, some .unexpected)
+      else if big b then (got, some .tooBig)
       else recvAdd want big (got ++ [b]) r
 
 /-- One partial response reaching `ReceiveResp`. -/
@@ -568,8 +569,8 @@ def Recv.receive (r : Recv) (big : Blk → Bool) (p : Part) : Recv × RecvOut :=
     else if p.blocks.isEmpty then ({ r with status := .finished }, .rspErr .missingHash)
     else
       match recvAdd r.want big r.got p.blocks with
-      | .error e => ({ r with status := if p.hasNext then .canceled else .finished }, .rspErr e)
-      | .ok got =>
+      | (got, some e) => ({ r with got, status := if p.hasNext then .canceled else .finished }, .rspErr e)
+      | (got, none) =>
         if p.hasNext then ({ r with got }, .nothing)
         else if got.length < r.want.length then ({ r with got, status := .finished }, .rspErr .tooFew)
         else ({ r with got, status := .finished }, .rsp got)
